@@ -51,6 +51,18 @@ CORPUS = [
      "F-G: pin_object on a CopySpace / MarkCompact / Compressor object panics instead of returning false"),
 ]
 
+def _load(name):
+    p = os.path.join(os.path.dirname(os.path.abspath(__file__)), "data", name)
+    return G.Program.from_json(json.load(open(p)))
+
+
+# schedule dependent (a race between the concurrent marker and the allocating mutator: fails in roughly 1 of 3 runs on a
+# loaded machine, 3 of 3 on an idle one); the program is the prefix of a generated C09 cycle program, not minimised
+CORPUS.append(("gc:concimmix-nonmoving-lost-in-marking", "C01", _load("concimmix_nonmoving_lost.json"),
+               "NEW: ConcurrentImmix: a NonMoving object allocated (into a reused block of the non-moving ImmixSpace) between the InitialMark and the "
+               "FinalMark pause of a concurrent cycle is reclaimed by that cycle although a mutator root slot holds it: after the FinalMark pause the root "
+               "points to memory without VO bit (`roots=0.11:!800006a1a38`), the object is gone (`gc:lost-object`)"))
+
 KEYS = {
     "C01": ("gc:dup-id", "gc:extra-object", "gc:lost-object", "gc:size-mismatch", "gc:payload", "gc:field-mismatch",
             "gc:root-mismatch"),
